@@ -173,8 +173,9 @@ func JudgeC15(c *Ctx, h *History, obs []*Obs) ([]Violation, error) {
 		if len(out) > 0 {
 			continue
 		}
-		// (d) seam: call arguments
-		writes := map[string]int{}
+		// (d) seam: mode arguments of the calls that carry one. Other ways of writing (temp
+		// file + rename, OpenFile) are legitimate; for them the on-disk modes under the drawn
+		// umask (e) decide.
 		for _, e := range mut {
 			rel := strings.TrimPrefix(e.Path, "@root/")
 			switch e.Op {
@@ -182,27 +183,10 @@ func JudgeC15(c *Ctx, h *History, obs []*Obs) ([]Violation, error) {
 				if e.Mode != 0o755 {
 					add("mkdir-mode", fmt.Sprintf("MkdirAll(%s) called with mode %#o, property says 0755 before umask", rel, e.Mode&0o7777))
 				}
-				okDir := false
-				for p := range pred {
-					if path.Dir(p) == rel || (rel == "@root" && path.Dir(p) == ".") {
-						okDir = true
-					}
-				}
-				if !okDir {
-					add("mkdir-elsewhere", "MkdirAll("+rel+") is not the directory of an output file")
-				}
 			case "WriteFile":
 				if e.Mode != 0o644 {
 					add("write-mode", fmt.Sprintf("WriteFile(%s) called with mode %#o, property says 0644 before umask", rel, e.Mode))
 				}
-				writes[rel]++
-			default:
-				add("other-mutation", fmt.Sprintf("unexpected mutating call %s(%s) in a successful run", e.Op, rel))
-			}
-		}
-		for p, n := range writes {
-			if n != 1 {
-				add("written-twice", fmt.Sprintf("%s written %d times", p, n))
 			}
 		}
 		// (e) on-disk modes of new entries
